@@ -702,3 +702,66 @@ def c10_string_history(start: int, rev: bool) -> bool:
         if not ok or r.get("errors") or r["data"]["outStr"] != SEQ_TEXT[i]:
             return verdict(False)
     return verdict(True)
+
+
+# ---- literal KINDS: which kind of literal each built-in scalar accepts, at an argument and as a variable's default (spec §3.5 input coercion) ----
+for _f in ("echoInt", "echoFloat", "echoID", "echoBool", "echoStr"):
+    Resolver("Query." + _f, schema_name=NAME + "_k")(_echo)
+ENG_K = build(SDL, NAME + "_k", query_cache_decorator=None)
+KIND_LITS = {"int": "1000001", "float": "1.5", "string": "\"abc\"", "bool": "true", "enum": "RED"}
+KIND_VALUE = {"float": 1.5, "string": "abc", "bool": True}
+ACCEPTS = {"Int": ("int",), "Float": ("int", "float"), "String": ("string",), "ID": ("string", "int"), "Boolean": ("bool",)}
+KFIELD = {"Int": "echoInt", "Float": "echoFloat", "ID": "echoID", "Boolean": "echoBool", "String": "echoStr"}
+KASTS = {}
+for _t in ACCEPTS:
+    for _k, _lit in KIND_LITS.items():
+        KASTS[(_t, _k, 0)] = ("{ %s(v: %s) }" % (KFIELD[_t], _lit),)
+        KASTS[(_t, _k, 1)] = ("query Q($x: %s = %s) { %s(v: $x) }" % (_t, _lit, KFIELD[_t]),)
+KASTS = {k: (v[0], gqlfront.parse(v[0])) for k, v in KASTS.items()}
+
+
+@obligation(tier="quick", timeout=120, shards=[{"t": t} for t in ACCEPTS],
+            samples=[{"n": 5, "kind": 0, "pos": 0}, {"n": 7, "kind": 2, "pos": 1}, {"n": 2 ** 31, "kind": 0, "pos": 1}, {"n": 0, "kind": 4, "pos": 1}, {"n": -1, "kind": 1, "pos": 1}, {"n": 3, "kind": 3, "pos": 0}],
+            symbolic=["n: int (unbounded) — the value of the Int literal (text abstracted as int(text)=n)"],
+            selectors=["kind: Int / Float / String / Boolean / Enum literal", "pos: argument value / default value of a variable that gets no runtime value", "shard: declared scalar"],
+            bounds="5 scalars x 5 literal kinds x 2 positions",
+            note="a literal is accepted exactly when its KIND is one the scalar's input coercion admits (Int: Int; Float: Int, Float; String: String; ID: String, Int; Boolean: Boolean) and, "
+                 "for Int kinds, the value is in range; a refused literal never reaches the resolver — as an argument and as a variable default alike")
+def c10_literal_kinds(n: int, kind: int, pos: int) -> bool:
+    """
+    post: _
+    """
+    t = shard()["t"]
+    kname = ["int", "float", "string", "bool", "enum"][pick(kind, 5)]
+    pos = pick(pos, 2)
+    text, ast = KASTS[(t, kname, pos)]
+    if kname == "int":
+        if t == "Float":
+            n = pick(n, 5) * 1000003 - 2000006      # as in c10_literal_eq_variable: float(<symbolic int>) predicates realise
+        ast = subst_int(ast, n)
+    del SEEN[:]
+    old = env.FFI._parse_to_json_ast
+    env.FFI._parse_to_json_ast = lambda q: ast
+    try:
+        ok, r = safe(lambda: env.run(ENG_K.execute(text)))
+    finally:
+        env.FFI._parse_to_json_ast = old
+    seen = list(SEEN)
+    observe(text, r, seen)
+    if not ok:
+        return verdict(False)
+    accept = kname in ACCEPTS[t]
+    if accept and kname == "int" and t == "Int":
+        accept = -2 ** 31 <= n < 2 ** 31
+    if not accept:
+        return verdict(bool(r.get("errors")) and not seen)
+    if r.get("errors") or len(seen) != 1:
+        return verdict(False)
+    got = seen[0].get("v")
+    if kname == "int":
+        exp = float(n) if t == "Float" else (str(n) if t == "ID" else n)
+        if t == "ID":
+            return verdict(True)      # ID takes the literal's TEXT, which this encoding abstracts as the int itself: only acceptance is compared here (c10_echo compares the text)
+    else:
+        exp = KIND_VALUE[kname]
+    return verdict(type(got) is type(exp) and got == exp)
